@@ -20,6 +20,7 @@ type tracer struct {
 	m       *Machine
 	q       *types.Var
 	val     Value
+	env     Env // q and the locals derived from it
 	reached []ast.Node
 }
 
@@ -41,6 +42,87 @@ func maxFlow(a, b tflow) tflow {
 }
 
 // mentions reports whether n reads the quantified variable (keys of struct literals do not count).
+// curDerived: while a function is traced, the locals that are pure functions of the quantified variable — defined once, by
+// `x := E` with E mentioning the variable (or an earlier such local), never reassigned, address never taken — with their defining
+// expressions, in source order. A use of such a local counts as a use of the variable, and the tracer evaluates it from E.
+var curDerived map[types.Object]ast.Expr
+var curDerivedOrder []types.Object
+
+// derivedLocals computes curDerived for fd.
+func derivedLocals(p *load.Program, q *types.Var, fd *ast.FuncDecl) (map[types.Object]ast.Expr, []types.Object) {
+	out := map[types.Object]ast.Expr{}
+	var order []types.Object
+	writes := map[types.Object]int{}
+	addrTaken := map[types.Object]bool{}
+	ast.Inspect(fd.Body, func(n ast.Node) bool {
+		switch x := n.(type) {
+		case *ast.AssignStmt:
+			for _, l := range x.Lhs {
+				if id, ok := unparen(l).(*ast.Ident); ok {
+					if o := p.Info.Defs[id]; o != nil {
+						writes[o]++
+					} else if o := p.Info.Uses[id]; o != nil {
+						writes[o]++
+					}
+				}
+			}
+		case *ast.IncDecStmt:
+			if id, ok := unparen(x.X).(*ast.Ident); ok {
+				writes[p.Info.Uses[id]] += 2
+			}
+		case *ast.UnaryExpr:
+			if id, ok := unparen(x.X).(*ast.Ident); ok && x.Op == token.AND {
+				addrTaken[p.Info.Uses[id]] = true
+			}
+		case *ast.RangeStmt:
+			for _, e := range []ast.Expr{x.Key, x.Value} {
+				if id, ok := e.(*ast.Ident); ok {
+					if o := p.Info.Defs[id]; o != nil {
+						writes[o] += 2
+					}
+				}
+			}
+		}
+		return true
+	})
+	prev := curDerived
+	defer func() { curDerived = prev }()
+	curDerived = out
+	ast.Inspect(fd.Body, func(n ast.Node) bool {
+		a, ok := n.(*ast.AssignStmt)
+		if !ok || a.Tok != token.DEFINE || len(a.Lhs) != 1 || len(a.Rhs) != 1 {
+			return true
+		}
+		id, ok := a.Lhs[0].(*ast.Ident)
+		if !ok {
+			return true
+		}
+		o := p.Info.Defs[id]
+		if o == nil || writes[o] != 1 || addrTaken[o] || !mentions(p, q, a.Rhs[0]) {
+			return true
+		}
+		// only values (integers, booleans, named integer types): a copy, not an alias
+		switch t := o.Type().Underlying().(type) {
+		case *types.Basic:
+			if t.Info()&(types.IsInteger|types.IsBoolean) == 0 {
+				return true
+			}
+		default:
+			return true
+		}
+		// a plain call of a non-predicate function (a length, a parsed object) is not a function of q alone
+		if c, isCall := unparen(a.Rhs[0]).(*ast.CallExpr); isCall {
+			if tv, okT := p.Info.Types[c.Fun]; !(okT && tv.IsType()) && !boolTyped(p, a.Rhs[0]) {
+				return true
+			}
+		}
+		out[o] = a.Rhs[0]
+		order = append(order, o)
+		return true
+	})
+	return out, order
+}
+
 func mentions(p *load.Program, q *types.Var, n ast.Node) bool {
 	if n == nil {
 		return false
@@ -69,6 +151,8 @@ func mentions(p *load.Program, q *types.Var, n ast.Node) bool {
 			return false
 		case *ast.Ident:
 			if p.Info.Uses[x] == q {
+				found = true
+			} else if o := p.Info.Uses[x]; o != nil && curDerived[o] != nil {
 				found = true
 			}
 		}
@@ -139,6 +223,10 @@ func checkQuantUseDef(p *load.Program, q *types.Var, fd *ast.FuncDecl, allowDef 
 	var err error
 	base := ""
 	var def *ast.AssignStmt
+	derived, _ := derivedLocals(p, q, fd)
+	prevD := curDerived
+	curDerived = derived
+	defer func() { curDerived = prevD }()
 	// `if x = E(q); C(x)`: the flag is evaluated by the tracer, provided it is read nowhere else
 	flagInit := map[*ast.AssignStmt]bool{}
 	ast.Inspect(fd.Body, func(n ast.Node) bool {
@@ -231,6 +319,9 @@ func checkQuantUseDef(p *load.Program, q *types.Var, fd *ast.FuncDecl, allowDef 
 				if mentions(p, q, rhs) && !flagInit[x] {
 					for _, l := range x.Lhs {
 						if id, ok := unparen(l).(*ast.Ident); ok && id.Name != "_" {
+							if o := p.Info.Defs[id]; o != nil && derived[o] != nil {
+								continue // a local that is a pure function of q: evaluated by the tracer
+							}
 							if c, isCall := unparen(rhs).(*ast.CallExpr); isCall {
 								// a value produced by a real call that takes q as an argument (a length, a parsed
 								// object, an error) is not a copy of q; conversions and predicates of q are
@@ -277,6 +368,18 @@ func boolTyped(p *load.Program, e ast.Expr) bool {
 func trace(p *load.Program, m *Machine, fd *ast.FuncDecl, q *types.Var, v Value) (nodes []ast.Node, err error) {
 	defer catch(&err)
 	t := &tracer{p: p, m: m, q: q, val: v}
+	derived, order := derivedLocals(p, q, fd)
+	prevD, prevO := curDerived, curDerivedOrder
+	curDerived, curDerivedOrder = derived, order
+	defer func() { curDerived, curDerivedOrder = prevD, prevO }()
+	t.env = Env{q: v}
+	for _, o := range order {
+		dv, e := m.Eval(derived[o], t.env)
+		if e != nil {
+			panic(e)
+		}
+		t.env[o] = dv
+	}
 	t.block(fd.Body.List)
 	return t.reached, nil
 }
@@ -306,7 +409,7 @@ func mentionsObj(p *load.Program, x types.Object, n ast.Node) bool {
 }
 
 func (t *tracer) evalBool(e ast.Expr) bool {
-	b, err := t.m.EvalBool(e, Env{t.q: t.val})
+	b, err := t.m.EvalBool(e, t.env)
 	if err != nil {
 		panic(err)
 	}
@@ -354,11 +457,16 @@ func (t *tracer) stmt(s ast.Stmt) tflow {
 		t.reach(s.Cond)
 		if x, e := ifInitFlag(t.p, t.q, s); x != nil && !t.has(s.Cond) && mentionsObj(t.p, x, s.Cond) {
 			// the condition reads a flag computed from the quantified variable in the init statement
-			v, err := t.m.Eval(e, Env{t.q: t.val})
+			v, err := t.m.Eval(e, t.env)
 			if err != nil {
 				panic(err)
 			}
-			b, err := t.m.EvalBool(s.Cond, Env{t.q: t.val, x: v})
+			env2 := Env{}
+			for k, ev := range t.env {
+				env2[k] = ev
+			}
+			env2[x] = v
+			b, err := t.m.EvalBool(s.Cond, env2)
 			if err != nil {
 				panic(err)
 			}
@@ -459,12 +567,25 @@ func (t *tracer) clauseBody(cc *ast.CaseClause) tflow {
 	return f
 }
 
+// definesDerived: st is the defining assignment of a local that is a pure function of the quantified variable.
+func definesDerived(p *load.Program, st ast.Stmt) bool {
+	a, ok := st.(*ast.AssignStmt)
+	if !ok || len(a.Lhs) != 1 {
+		return false
+	}
+	id, ok := a.Lhs[0].(*ast.Ident)
+	return ok && p.Info.Defs[id] != nil && curDerived[p.Info.Defs[id]] != nil
+}
+
 func (t *tracer) switchStmt(s *ast.SwitchStmt) tflow {
 	t.reach(s.Init)
-	if s.Init != nil && t.has(s.Init) {
+	if s.Init != nil && t.has(s.Init) && !definesDerived(t.p, s.Init) {
 		t.fail(s.Init, "switch init depends on the quantified variable")
 	}
-	env := Env{t.q: t.val}
+	env := Env{}
+	for k, ev := range t.env {
+		env[k] = ev
+	}
 	if s.Tag != nil {
 		t.reach(s.Tag)
 		if !t.has(s.Tag) {
